@@ -179,6 +179,16 @@ func (b *sbroker) state(id string) (n int, closed bool, all []string) {
 // runReal runs one interleaving (order[i]: 0 = next step of A, 1 = next step of B; a nil script = absent session)
 // against a fresh gateway process.  Returns the two observation logs.
 func runReal(a, b *rscript, order []int) (logA, logB string, inconclusive string) {
+	for try := 0; try < 4; try++ {
+		logA, logB, inconclusive = runRealOnce(a, b, order)
+		if !strings.Contains(inconclusive, "address already in use") {
+			break
+		}
+	}
+	return
+}
+
+func runRealOnce(a, b *rscript, order []int) (logA, logB string, inconclusive string) {
 	br, err := newSBroker()
 	if err != nil {
 		return "", "", err.Error()
